@@ -356,6 +356,15 @@ theorem C15_path_param_once (seg : List Nat) (h : utf8Valid (pctDecode seg) = tr
 
 theorem C15_path_param_lossy (seg : List Nat) : pathParam seg = utf8Lossy (pctDecode seg) := rfl
 
+/-- **route parameters under nested routes are decoded exactly once**: what `use_params_map()` returns
+below `<Routes>`/`<ParentRoute>` (the merged map of all matched routes) is, for every matched raw segment,
+its single lossy percent-decoding — for any nesting depth. -/
+theorem C15_nested_params_once (segs : List (List Nat)) :
+    nestedParams segs = segs.map fun seg => utf8Lossy (pctDecode seg) := rfl
+
+theorem C15_nested_params_eq_flat (segs : List (List Nat)) :
+    nestedParams segs = segs.map pathParam := rfl
+
 /-- **query round-trip**: a parameter map (any keys and values that are Rust strings) written
 with `to_query_string` and parsed back is the same map — keys, values, multiplicity, order. -/
 theorem C15_query_roundtrip (m : PMap) (hm : MapOK m)
@@ -391,6 +400,13 @@ theorem C15_panic_witness :
 /-- F-C15-3 (repaired): a raw path segment `%FF` used to panic; now it is U+FFFD -/
 theorem C15_path_param_panic_witness :
     unescapeOld [37, 70, 70] = none ∧ pathParam [37, 70, 70] = [0xEF, 0xBF, 0xBD] := by decide
+
+/-- F-C15-4 (repaired by 36ea226): under `<Routes>` the merged parameter map used to be re-collected through
+`ParamsMap::insert`; `/org/a%2541/user/100%2525` read org = "aA", id = "100%" -/
+theorem C15_nested_double_decode_witness :
+    nestedParamsOld [[97, 37, 50, 53, 52, 49], [49, 48, 48, 37, 50, 53, 50, 53]] = [[97, 65], [49, 48, 48, 37]] ∧
+    nestedParams [[97, 37, 50, 53, 52, 49], [49, 48, 48, 37, 50, 53, 50, 53]]
+      = [[97, 37, 52, 49], [49, 48, 48, 37, 50, 53]] := by decide
 
 /-! ## non-vacuity -/
 
